@@ -7,4 +7,9 @@ require (
 	github.com/anishathalye/porcupine v1.3.0
 )
 
+require (
+	github.com/hashicorp/errwrap v1.0.0 // indirect
+	github.com/hashicorp/go-multierror v1.1.1 // indirect
+)
+
 replace github.com/SAP/go-dblib => /repo
